@@ -31,7 +31,15 @@ be loaded; (b) with expire_on_commit=False a flushed-deleted object stayed in
 the "deleted" state after commit; (c) close() left flushed-deleted objects in
 the "deleted" state; (d) the stale ``_deleted`` flag of C35.
 
+Every world also runs with Session(autoflush=False) (one level shallower) and
+offers ``begin_nested()`` inside ``with session.no_autoflush:``; the model rule
+is unchanged (begin_nested flushes, then pushes a scope) and the rows visible
+after begin_nested are compared with the model as for commit / rollback.
+
 Mutations caught (private copy, `VF_REPO=/tmp/wt-orm1 ./check C33`):
+ * session.py `_take_snapshot`: `self.session.flush()` replaced by
+   `self.session._autoflush()` -> "begin_nested: rows of the surviving scope
+   differ from the nested-transaction model"
  * session.py `_restore_snapshot`: `s.key = oldkey` dropped (`_key_switches`
    not restored) -> "keeps an identity key that is not its row's key"
  * session.py `_remove_snapshot`: `parent._new.update(self._new)` dropped ->
@@ -193,7 +201,7 @@ def check_step(cfg, hist_, ms, op):
         out = w.apply(op)
         eoc = cfg["eoc"]
         kind = op[0]
-        head = "commit(eoc=%s)" % eoc if kind == "commit" else ("rollback" if kind in ROLLBACK_OPS else kind)
+        head = "commit(eoc=%s)" % eoc if kind == "commit" else ("rollback" if kind in ROLLBACK_OPS else ("begin_nested" if kind == "begin_nested_nf" else kind))
         problems = []
         info.update(outcome=out.short(), lifecycle=w.lifecycle())
         if not out.ok and not out.is_sa_error:
